@@ -794,6 +794,239 @@ def plain(v):
     return v
 
 
+def q_same(a, b):
+    """exact equality; NaN equals NaN"""
+    if isinstance(a, (float, np.floating, complex)) and isinstance(b, (float, np.floating, complex)):
+        return a == b or (a != a and b != b)
+    if isinstance(a, (tuple, list)) and isinstance(b, (tuple, list)):
+        return len(a) == len(b) and all(q_same(x, y) for x, y in zip(a, b))
+    try:
+        return bool(a == b)
+    except Exception:
+        return False
+
+
+def q_read(obj, names):
+    out = {}
+    for nm in names:
+        try:
+            v = getattr(obj, nm)
+        except Exception as e:
+            v = "EXC:" + type(e).__name__
+        if nm == "solutions" and not isinstance(v, str):
+            v = [(type(p).__name__, float(p.theta0), float(p.tof), float(p.path_length),
+                  plain(np.asarray(p.emitted_direction, dtype=float)), plain(np.asarray(p.received_direction, dtype=float))) for p in v]
+        else:
+            v = plain(v)
+        out[nm] = v
+    return out
+
+
+class SharedTracerHistory:
+    """Several live ray tracers and ray paths built from SHARED caller arrays (the same endpoint ndarrays,
+    the same ice object -- as EventKernel does with particle.vertex for every antenna), with public operations
+    on any one of them (rebinding of from_point / to_point / ice / dz, augmented assignment `+=`, `-=`, `*=`)
+    and in-place changes of the caller's own arrays (`+=`, element and slice assignment).  Each live object has
+    a shadow definition changed only by operations on that object.  After every operation, for EVERY live
+    object: its defining attributes still equal its shadow (no cross-object effect), and every derived quantity
+    equals what a freshly constructed object with its current attributes / its shadow definition reports."""
+    T_NAMES = {"SpecializedRayTracer": ["n0", "rho", "max_angle", "exists", "expected_solutions", "solutions"],
+               "UniformRayTracer": ["n0", "rho", "phi", "exists", "solutions"],
+               "BasicRayTracer": ["n0", "rho", "max_angle", "direct_r_max"]}
+    P_NAMES = ["n0", "rho", "phi", "tof", "path_length", "emitted_direction", "received_direction"]
+
+    def __init__(self, rng):
+        from pyrex import ray_tracing as rtm
+        from pyrex.ice_model import AntarcticIce, UniformIce
+        self.rng, self.rtm = rng, rtm
+        self.kind = rng.choice(["SpecializedRayTracer", "SpecializedRayTracer", "UniformRayTracer", "UniformRayTracer", "BasicRayTracer"])
+        self.cls = getattr(rtm, self.kind)
+        self.ices = [UniformIce(1.5), UniformIce(1.78)] if self.kind == "UniformRayTracer" else \
+            [AntarcticIce(), AntarcticIce(n0=1.76, k=1.76 - 1.32, a=0.014)]
+        self.pool = [self.point() for _ in range(rng.randint(2, 4))]      # the caller's arrays
+        self.live = []                                                     # [object, shadow, kind(, parent tracer)]
+        self.tainted = set()
+        self.log = []
+        for _ in range(rng.randint(2, 3)):
+            self.new_tracer()
+
+    def point(self):
+        r = self.rng
+        return np.array([r.randint(-300, 300), r.randint(-300, 300), -r.randint(20, 900)], dtype=float)
+
+    def new_tracer(self):
+        r = self.rng
+        a, b = r.randrange(len(self.pool)), r.randrange(len(self.pool))
+        ice = r.choice(self.ices)
+        rt = self.cls(self.pool[a], self.pool[b], ice_model=ice)          # SHARED ndarray arguments
+        sh = {"from_point": np.array(self.pool[a]), "to_point": np.array(self.pool[b]), "ice": ice}
+        if hasattr(rt, "dz"):
+            sh["dz"] = rt.dz
+        self.live.append([rt, sh, "tracer"])
+        self.log.append(["new_tracer", a, b, self.ices.index(ice)])
+
+    def take_path(self, i):
+        rt, sh = self.live[i][:2]
+        try:
+            sols = rt.solutions
+        except Exception:
+            return False
+        if not sols:
+            return False
+        p = self.rng.choice(sols)
+        if any(l[0] is p for l in self.live):
+            return False                      # this very object is already live (one shadow per object)
+        psh = {k: (np.array(v) if isinstance(v, np.ndarray) else v) for k, v in sh.items()}
+        psh["theta0"] = p.theta0
+        self.live.append([p, psh, "path", rt])
+        self.log.append(["take_path", i])
+        return True
+
+    def step(self):
+        r = self.rng
+        if len(self.live) > 6:
+            self.live.pop(r.randrange(len(self.live)))
+        k = r.choice(["aug", "aug", "aug", "rebind", "rebind", "ice", "dz", "caller", "caller", "new_tracer", "take_path", "read"])
+        i = r.randrange(len(self.live))
+        obj, sh, kind = self.live[i][:3]
+        if kind == "path" and k in ("aug", "rebind", "ice", "dz"):
+            # the path object is the very element of its tracer's cached `solutions` list: changing it changes
+            # what that list shows (object identity, not staleness) -- stop comparing that tracer's `solutions`
+            self.tainted.add(id(self.live[i][3]))
+        if k == "new_tracer":
+            self.new_tracer()
+        elif k == "take_path":
+            tr = [j for j, l in enumerate(self.live) if l[2] == "tracer"]
+            if not tr or self.kind == "BasicRayTracer" or not self.take_path(r.choice(tr)):
+                return False
+        elif k == "read":
+            q_read(obj, r.sample(self.names(kind), r.randint(1, 3)))
+            self.log.append(["read", i])
+        elif k == "aug":
+            a = r.choice(["from_point", "to_point"])
+            how = r.choice(["+=", "-=", "*="])
+            off = np.array([r.randint(-30, 30), r.randint(-30, 30), -r.randint(0, 40)], dtype=float)
+            if how == "+=":
+                obj.__setattr__(a, getattr(obj, a).__iadd__(off))      # obj.a += off
+                sh[a] = sh[a] + off
+            elif how == "-=":
+                obj.__setattr__(a, getattr(obj, a).__isub__(-off))     # obj.a -= (-off)
+                sh[a] = sh[a] - (-off)
+            else:
+                f = r.choice([0.5, 1.25, 0.75])
+                obj.__setattr__(a, getattr(obj, a).__imul__(f))        # obj.a *= f
+                sh[a] = sh[a] * f
+            self.log.append(["aug", i, a, how])
+        elif k == "rebind":
+            a = r.choice(["from_point", "to_point"])
+            new = self.point() if r.random() < 0.5 else np.array(r.choice(self.pool))   # a fresh array: the caller keeps no reference
+            setattr(obj, a, new)
+            sh[a] = np.array(new)
+            self.log.append(["rebind", i, a])
+        elif k == "ice":
+            new = self.ices[1] if sh["ice"] is self.ices[0] else self.ices[0]
+            obj.ice = new
+            sh["ice"] = new
+            self.log.append(["ice", i])
+        elif k == "dz":
+            if "dz" not in sh:
+                return False
+            new = r.choice([d for d in (0.5, 1, 2) if d != sh["dz"]])
+            obj.dz = new
+            sh["dz"] = new
+            self.log.append(["dz", i])
+        elif k == "caller":
+            # the caller goes on using ITS arrays: no live object may notice
+            arr = r.choice(self.pool)
+            how = r.choice(["+=", "elem", "slice"])
+            if how == "+=":
+                arr += np.array([r.randint(-20, 20), r.randint(-20, 20), -r.randint(0, 20)], dtype=float)
+            elif how == "elem":
+                arr[2] = -float(r.randint(20, 900))
+            else:
+                arr[:2] = [float(r.randint(-300, 300)), float(r.randint(-300, 300))]
+            self.log.append(["caller", how])
+        # fill caches of a random subset so that later staleness is observable
+        for l in self.live:
+            if r.random() < 0.6:
+                q_read(l[0], self.names(l[2]))
+        return True
+
+    def names(self, kind):
+        return self.P_NAMES if kind == "path" else self.T_NAMES[self.kind]
+
+    def fresh(self, kind, d, obj):
+        if kind == "tracer":
+            new = self.cls(np.array(d["from_point"]), np.array(d["to_point"]), ice_model=d["ice"])
+            if "dz" in d:
+                new.dz = d["dz"]
+            return new
+        from types import SimpleNamespace
+        parent = SimpleNamespace(from_point=np.array(d["from_point"]), to_point=np.array(d["to_point"]), ice=d["ice"], dz=d.get("dz"))
+        if type(obj).__name__ == "UniformRayTracePath":
+            return type(obj)(parent, d["theta0"], obj._reflections)
+        return type(obj)(parent, d["theta0"], obj.direct)
+
+    def check(self):
+        for i, entry in enumerate(self.live):
+            obj, sh, kind = entry[:3]
+            names = [nm for nm in self.names(kind) if not (nm == "solutions" and id(obj) in self.tainted)]
+            cur = {k: getattr(obj, k) for k in sh}
+            for k in sh:
+                ok = np.array_equal(cur[k], sh[k]) if isinstance(sh[k], np.ndarray) else (cur[k] is sh[k] or cur[k] == sh[k])
+                if not ok:
+                    return "live %s %d (%s): its %s is now %s although only operations on OTHER objects / the caller's arrays happened since it was %s" % (
+                        kind, i, type(obj).__name__, k, plain(cur[k]) if isinstance(cur[k], np.ndarray) else cur[k],
+                        plain(sh[k]) if isinstance(sh[k], np.ndarray) else sh[k])
+            got = q_read(obj, names)
+            want = q_read(self.fresh(kind, cur, obj), names)
+            diff = [nm for nm in names if not q_same(got[nm], want[nm])]
+            if diff:
+                return "live %s %d (%s): %s differ(s) from a freshly constructed object with its current attributes (%s vs %s)" % (
+                    kind, i, type(obj).__name__, diff, str(got[diff[0]])[:100], str(want[diff[0]])[:100])
+        return None
+
+
+def shared_tracer_cases(ctx, rng):
+    import random
+    n_cases = 0
+    for hn in range(ctx.n(45, 500)):
+        seed = rng.randrange(2 ** 31)
+        h = SharedTracerHistory(random.Random(seed))
+        for stepn in range(h.rng.randint(4, 12) if h.kind != "BasicRayTracer" else 4):
+            try:
+                if not h.step():
+                    continue
+            except Exception as e:
+                ctx.fail("shared-raise:%s" % type(e).__name__, "a public operation on a ray tracer / path raised %s: %s after %s" % (
+                    type(e).__name__, e, h.log[-4:]), {"kind": "shared-tracers", "seed": seed, "ops": h.log})
+                break
+            n_cases += 1
+            bad = h.check()
+            if bad:
+                if len(ctx.failures) < 6:
+                    ctx.fail("shared:%s:%s" % (h.kind, ",".join(str(o[0]) for o in h.log[-3:])),
+                             "%s history %s: %s" % (h.kind, h.log[-6:], bad), {"kind": "shared-tracers", "seed": seed, "ops": h.log})
+                break
+        ctx.case(key=("shared", h.kind, tuple(o[0] for o in h.log)), sample={"kind": h.kind, "ops": h.log[:8]} if hn % 25 == 0 else None)
+    return n_cases
+
+
+def replay_shared(obj):
+    import random
+    h = SharedTracerHistory(random.Random(obj["seed"]))
+    n = h.rng.randint(4, 12) if h.kind != "BasicRayTracer" else 4
+    bad = None
+    for stepn in range(n):
+        if not h.step():
+            continue
+        bad = h.check()
+        print("  %s -> %s" % (h.log[-1], "ok" if not bad else "VIOLATED: " + bad))
+        if bad:
+            break
+    return 1 if bad else 0
+
+
 def tracer_cases(ctx, rng):
     """ray tracers / paths: attribute assignments, then every derived quantity against a fresh object"""
     from pyrex.ray_tracing import (SpecializedRayTracer, BasicRayTracer, UniformRayTracer)
@@ -925,7 +1158,11 @@ def run(ctx):
                 "(FFT variant) with matching arrays, shift, scaling between reads vs a freshly constructed noise object and "
                 "(FullThermalNoise) the explicit cosine sum over the published basis; ray tracers: endpoint / ice / dz "
                 "assignment between reads vs fresh tracer; their paths: to_point / from_point / dz / theta0 / ice assignment "
-                "between reads of tof, path_length, directions, coordinates vs a freshly constructed path; table-driven: for "
+                "between reads of tof, path_length, directions, coordinates vs a freshly constructed path; several LIVE tracers and "
+                "paths built from SHARED caller arrays / the same ice object (Specialized, Uniform, Basic), ops on any one of them "
+                "(rebinding, +=, -=, *= of endpoints, ice, dz) and in-place changes of the caller's own arrays (+=, element and "
+                "slice assignment), per-object shadow definitions: after every op every live object's defining attributes equal "
+                "its shadow and its derived quantities equal a freshly constructed object's; table-driven: for "
                 "every function-backed signal class of the generated table (FunctionSignal, both noise classes, ZHS / AVZ / "
                 "ARZ / ARVZ Askaryan signals at on-cone and off-cone angles, hadronic fraction 0..1, 1e6..1e10 GeV) and EVERY "
                 "attribute of its static list: read, assign a different value chosen by the value's type, read (also assign "
@@ -1052,7 +1289,12 @@ def run(ctx):
     except Exception as e:
         n_tr = 0
         ctx.oblige("corr:tracers-ran", False, "%s: %s" % (type(e).__name__, e))
-    ctx.extra["correspondence"] = {"core_histories": n_core, "function_signal_histories": n_hist, "function_signal_ops": ops_count,
+    try:
+        n_shared = shared_tracer_cases(ctx, rng)
+    except Exception as e:
+        n_shared = 0
+        ctx.oblige("corr:shared-tracers-ran", False, "%s: %s" % (type(e).__name__, e))
+    ctx.extra["correspondence"] = {"shared_tracer_steps": n_shared, "core_histories": n_core, "function_signal_histories": n_hist, "function_signal_ops": ops_count,
                                    "noise_cases": n_noise, "static_attribute_cases": n_static, "tracer_cases": n_tr, "tolerance": "exact vs fresh object; 1e-9 relative vs eager oracle"}
     ctx.extra["search"] = {"ran": True, "oracle": "freshly constructed object with the same defining attributes; independent eager evaluation"}
     # when the proof is broken: name the offending table entries (the dynamic probes above look for the witness)
@@ -1073,6 +1315,8 @@ def replay(ctx, obj):
         for op, bad in out:
             print("  %s -> %s" % (op, "ok" if not bad else "STALE/WRONG: " + bad))
         return 1 if any(b for _, b in out) else 0
+    if kind == "shared-tracers":
+        return replay_shared(obj)
     if kind == "core":
         print("synthetic class table:", json.dumps(obj["table"]))
         print("history:", obj["history"])
